@@ -279,6 +279,44 @@ pub fn run(tier: Tier) -> ! {
                         }
                         2 => a.iter_mut().for_each(|x| *x = 0),
                         3 if la == lb => b = a.clone(),
+                        4 | 5 if lb >= 1 && la >= lb && canon(b[lb - 1]) != 0 => {
+                            // structured dividend a = b*q + r with a sparse quotient (zero low-order
+                            // coefficients, interior gaps, a monomial) and a short or empty remainder
+                            let lq = la - lb + 1;
+                            let mut q = vec![0u64; lq];
+                            match rng.gen_range(0..4) {
+                                0 => q[lq - 1] = 1,
+                                1 => {
+                                    q[lq - 1] = gen::canon_u64(&mut rng, &bset).max(1);
+                                    if lq > 2 {
+                                        q[lq / 2] = gen::canon_u64(&mut rng, &bset);
+                                    }
+                                }
+                                2 => {
+                                    let z = rng.gen_range(0..lq);
+                                    for (i, x) in q.iter_mut().enumerate() {
+                                        *x = if i < z { 0 } else { gen::canon_u64(&mut rng, &bset) };
+                                    }
+                                    q[lq - 1] = q[lq - 1].max(1);
+                                }
+                                _ => {
+                                    for x in q.iter_mut() {
+                                        *x = if rng.gen_bool(0.5) { 0 } else { gen::canon_u64(&mut rng, &bset) };
+                                    }
+                                    q[lq - 1] = q[lq - 1].max(1);
+                                }
+                            }
+                            let lr = if lb > 1 { rng.gen_range(0..lb) } else { 0 };
+                            let r: Vec<u64> = (0..lr).map(|_| gen::canon_u64(&mut rng, &bset)).collect();
+                            let mut prod = poly_mul(&canon_vec(&b), &q);
+                            prod.resize(la.max(prod.len()), 0);
+                            for (i, x) in r.iter().enumerate() {
+                                prod[i] = radd(prod[i], *x);
+                            }
+                            prod.truncate(la);
+                            a = prod;
+                            c.run.count("poly.structured_dividends_sparse_quotient", 1);
+                        }
                         _ => {}
                     }
                     c.run.nontrivial(("poly", la, lb, rep));
